@@ -12,8 +12,11 @@ pub type CArg = rustpython_parser::ast::ArgWithDefault;
 #[verifier::external_type_specification] pub struct ExCompletionContext(CompletionContext);
 
 // ---- abstract inputs -----------------------------------------------------------------------------------------
-/// `func_name.as_str().starts_with("test_")` (string code: the text of the name decides, nothing else)
-pub uninterp spec fn is_test_name(name: Seq<char>) -> bool;
+/// `func_name.as_str().starts_with("test")` (string code: the text of the name decides, nothing else) -- pytest's default
+/// `python_functions` prefix, no underscore required (F-03f repaired): the name begins with the four characters t e s t.
+/// Opaque: the proofs about the real bodies use it as an uninterpreted predicate; only lemmas about concrete names reveal it.
+#[verifier::opaque]
+pub open spec fn is_test_name(name: Seq<char>) -> bool { name.len() >= 4 && name.subrange(0, 4) == "test"@ }
 /// find_signature_end_line (resolver.rs ~1183): the 1-based line on which the signature ends = op_sig_end
 /// (prelude/sigend_spec.rs), PROVED for the real body in unit sig_end and imported here by `//@stub sig_end`
 pub open spec fn sig_end_line(func_start_line: usize, args: CArguments, returns: Option<Box<Expr>>, body: Seq<Stmt>,
@@ -91,7 +94,7 @@ pub open spec fn opt_ccv(o: Option<CompletionContext>) -> Option<CtxV> {
 /// get_func_context: the context ONE (sync or async) function definition gives the cursor line.
 ///   None   the line is outside [line(range.start), line(range.end)] of the definition's AST range (whatever the
 ///          parser makes that range cover -- with or without the decorator lines: not modelled), or the function is
-///          neither `test_*` nor fixture-decorated
+///          neither `test*` nor fixture-decorated
 ///   Some   signature iff line <= sig_end_line, else body; name; line of the `def`; is_fixture; declared = names of
 ///          ALL parameters; scope = Some(scope of the fixture) inside a fixture, None inside a test
 pub open spec fn spec_func_ctx(name: Identifier, decos: Seq<Expr>, args: CArguments, returns: Option<Box<Expr>>,
